@@ -160,7 +160,7 @@ func wakeCase(c *vlib.Ctx, kind int, i int, r *vlib.Rand) {
 			delete(want, id)
 			c.Count("wake_returns_after_put", 1)
 		}
-		if r.Bool() {
+		if r.Bool() && !bad {
 			if waitParked(q.parkFrame(), base, C) >= C {
 				c.Count("wake_rounds_started_with_all_consumers_parked", 1)
 			}
@@ -177,8 +177,10 @@ func wakeCase(c *vlib.Ctx, kind int, i int, r *vlib.Rand) {
 		}
 		return
 	}
-	// stop the consumers: one pill at a time (works for capacity 1 as well)
-	for k := 0; k < C; k++ {
+	// stop the consumers: one pill at a time (works for capacity 1 as well). A consumer whose
+	// Get comes back empty-handed has ended as well (see above): alive counts those still there.
+	alive := C
+	for alive > 0 {
 		ok, returned := putBounded(false, lanes-1, pill)
 		if !returned {
 			return
@@ -187,21 +189,29 @@ func wakeCase(c *vlib.Ctx, kind int, i int, r *vlib.Rand) {
 			c.Fail(T+".Put:wrong-return", "Put on an empty queue returned false", map[string]interface{}{"params": params, "ops": log})
 			return
 		}
-		for n := 0; ; n++ {
+		for n := 0; alive > 0; n++ {
 			v, ok := recv()
 			if !ok {
 				stalled("pills")
 				return
 			}
 			if _, isPill := v.(pillT); isPill {
+				alive--
 				break
 			}
+			if v == nil {
+				alive--
+			}
 			if n > 64 {
-				return // already reported below; never loop on a consumer that keeps returning something else
+				return // already reported; never loop on a consumer that keeps returning something else
 			}
 			if !bad {
 				bad = true
-				c.Fail(T+".Get:wrong-element", fmt.Sprintf("Get() returned %v, only the pill was queued", v), map[string]interface{}{"params": params, "ops": log})
+				if v == nil {
+					c.Fail(T+".Get:empty-return", "blocking Get() returned nil (only a pill was queued; another consumer took it)", map[string]interface{}{"params": params, "ops": log})
+				} else {
+					c.Fail(T+".Get:wrong-element", fmt.Sprintf("Get() returned %v, only the pill was queued", v), map[string]interface{}{"params": params, "ops": log})
+				}
 			}
 		}
 	}
